@@ -55,6 +55,10 @@ async fn areq(ctx: &Ctx, s: S, arg: u32) -> u32 {
     }
 }
 
+fn areq_owned(ctx: Ctx, s: S, arg: u32) -> futures::future::BoxFuture<'static, u32> {
+    async move { areq(&ctx, s, arg).await }.boxed()
+}
+
 fn astream(ctx: &Ctx, s: S, arg: u32) -> futures::stream::BoxStream<'static, u32> {
     if is_b(s.label) {
         ctx.stream_from_shell(OpB::make(s.label, arg)).map(OpB::val).boxed()
@@ -207,6 +211,43 @@ pub fn build(p: &P) -> Cmd {
             jh.abort();
             jh.await;
             ctx.send_event(Event::mark(m, 0));
+        }),
+        P::SelfAbort(s, m) => {
+            let slot: std::sync::Arc<std::sync::Mutex<Option<Box<dyn Fn() + Send>>>> = Default::default();
+            let slot2 = slot.clone();
+            let cmd = Command::new(move |ctx| async move {
+                let v = areq(&ctx, s, 0).await;
+                ctx.send_event(Event::got(s, v));
+                if let Some(abort) = slot2.lock().unwrap().as_ref() {
+                    abort();
+                }
+                ctx.send_event(Event::mark(m, 0));
+            });
+            let h = cmd.abort_handle();
+            *slot.lock().unwrap() = Some(Box::new(move || h.abort()));
+            cmd
+        }
+        P::HandOff(s, t, u) => Command::new(move |ctx| async move {
+            let l = areq_owned(ctx.clone(), s, 0);
+            let r = areq_owned(ctx.clone(), t, 0);
+            match futures::future::select(l, r).await {
+                Either::Left((v, rest)) => {
+                    ctx.send_event(Event::got(s, v));
+                    ctx.spawn(move |ctx| async move {
+                        let w = rest.await;
+                        ctx.send_event(Event::got(t, w));
+                    });
+                }
+                Either::Right((w, rest)) => {
+                    ctx.send_event(Event::got(t, w));
+                    ctx.spawn(move |ctx| async move {
+                        let v = rest.await;
+                        ctx.send_event(Event::got(s, v));
+                    });
+                }
+            }
+            let x = areq(&ctx, u, 0).await;
+            ctx.send_event(Event::got(u, x));
         }),
         P::JoinTwice(s, m) => Command::new(move |ctx| async move {
             let jh = ctx.spawn(move |ctx| async move {
